@@ -27,7 +27,10 @@ func planShapes(thorough bool) []string {
 	if true {
 		qs = append(qs, `max without (l) (a offset 30s)`, `bottomk by (l) (1, a)`, `scalar(sum(a)) + a`, `count(a == bool b)`, `last_over_time(a[1m])`,
 			`sum by (l) (a) + on (l) group_right a`, `a * on (l) group_left sum by (l) (b)`, `vector(time())`, `sum_over_time(a[45s]) - a`, `stddev(a) > 0`,
-			`topk(scalar(count(b)), a)`, `a + b + a`, `sum(a) + sum(b) + sum(a offset 30s)`)
+			`topk(scalar(count(b)), a)`, `a + b + a`, `sum(a) + sum(b) + sum(a offset 30s)`,
+			// a step-invariant operator as the only consumer of the storage, at the root and
+			// below one more operator
+			`a @ 45.000`, `abs(a @ 45.000)`, `sum(a @ 45.000)`, `b + on () group_left () sum(a @ 45.000)`, `rate(a[1m] @ 45.000)`)
 	}
 	return qs
 }
@@ -610,7 +613,8 @@ func jsonMarshal(v any) ([]byte, error) { return json.Marshal(v) }
 
 // c13Params: extreme parameters x degenerate data, against the reference engine.
 func c13Params(c *check.Ctx) {
-	params := []string{"0", "-1", "NaN", "Inf", "-Inf", "1e30", "-1e30", "0.5", "1", "2", "1e-300", `scalar(nope)`, `scalar(a)`, `scalar(b{l="0"}) - 7`, `time() - 40`, `-time()`}
+	// 2^31, 2^32, 1e12, 1e18 and 9.2e18 are valid int64 counts far beyond any group size
+	params := []string{"0", "-1", "NaN", "Inf", "-Inf", "1e30", "-1e30", "0.5", "1", "2", "1e-300", "2147483648", "4294967296", "1e12", "1e18", "9.2e18", `scalar(nope)`, `scalar(a)`, `scalar(b{l="0"}) - 7`, `time() - 40`, `-time()`}
 	nanS := core.SeriesSpec{L: `a{l="0"}`}
 	for i := 0; i < 16; i++ {
 		nanS.S = append(nanS.S, p(int64(i)*30000, nan()))
